@@ -227,7 +227,7 @@ class Table:
                     prev_spans[col_index] = (prev_rowspan - 1, prev_colspan)
                     col_index += prev_colspan
                 cell.row_index, cell.col_index = row_index, col_index
-                self.num_cols = max(self.num_cols, col_index + 1)
+                self.num_cols = max(self.num_cols, col_index + cell.colspan)
                 cell.wrappable = col_index in self.wrap_columns
                 cell.contents = [cell.contents]
                 prev_spans[col_index] = (cell.rowspan, cell.colspan)
